@@ -78,6 +78,14 @@ CLAIMS = {
   "lifecycle state (empty, loaded, solved, edited, shrunk) inside forked ASan children and comparing return code and the complete before/after dump.",
   COMMON_NOTE + "NULL pointer arguments are not exercised. The internal flag factorok is not counted as observable state.",
   "DESIGN.md C07", "Lean 4 proof of guard exactness and atomicity over the reference model + boundary-value correspondence check"),
+ "C20": ("proof",
+  "Lean model of QSlogv (handler => one complete message, no descriptor touched) and the theorem no_direct_writers: the table of call sites that "
+  "write to stdout/stderr without QSlog - RE-EXTRACTED from /repo's preprocessed sources by the translator on every run - contains only the allowed "
+  "sites (the no-handler branch of QSlogv, QSwrite_prob with a NULL name, the interactive editor/prompt, trace-only blocks whose TRACE flag is 0), "
+  "by decide over the whole table; tied dynamically by running failing calls, rejected arguments, solves at every display level, edit histories and "
+  "a message-length sweep with a handler installed and fd 1/2 captured: 0 bytes must arrive and every message must arrive complete.",
+  COMMON_NOTE + "The site extractor is a brace-depth scanner over gcc -E output (trusted). Interactive editor not driven.",
+  "DESIGN.md C20", "Lean 4 proof over a logging model + regenerated effect table (translator) + fd-capture correspondence check"),
 }
 
 NOT_BUILT = "not claimed in this revision: the check for it is not built yet (plan: DESIGN.md section 10)"
